@@ -444,6 +444,9 @@ impl World {
                     if n == "fold_end_leftover_lore" {
                         taint.insert("F1".into());
                     }
+                    if n == "fold_window_unread_states" {
+                        taint.insert("F22".into());
+                    }
                     if n == "remote_call_unresolved_args" {
                         taint.insert("F2probe".into()); // informational; C19 classifies per stuck state by sender
                     }
